@@ -94,6 +94,7 @@ pub fn run(cfg: &RunCfg) -> Ctx {
         "src.pending_between_ready",
         "enc.yield_flush",
         "dec.body_pending",
+        "dec.mixed_flags_under_compression",
     ] {
         all.floor(k, 5);
     }
@@ -245,6 +246,23 @@ pub fn roundtrip_case(rng: &mut Rng, ctx: &mut Ctx, all_cuts: bool) {
         ctx.count("metamorphic.pairs");
     }
 
+    // ---- the per-message opt-out as a peer would send it: some messages of a compressing stream
+    //      travel uncompressed (flag 0); same messages, same order after decoding
+    let (wire, frames) = if enc != Enc::Identity && !payloads.is_empty() && rng.chance(1, 3) {
+        let mut w = Vec::new();
+        for (f, p) in frames.iter().zip(&payloads) {
+            if rng.bool() {
+                w.extend(ref_frame(0, p));
+            } else {
+                w.extend(ref_frame(1, &f.payload));
+            }
+        }
+        ctx.count("dec.mixed_flags_under_compression");
+        let (fr, _) = ref_parse(&w);
+        (w, fr)
+    } else {
+        (wire, frames)
+    };
     // ---- decode under generated chunkings
     let special: Vec<usize> = frames.iter().map(|f| f.start).collect();
     let mut cutsets: Vec<(String, Vec<usize>)> = Vec::new();
